@@ -197,6 +197,14 @@ static void fill(CdnsBlock& b, int content, const Pools& P) {
     case 0: break;
     case 1: b.add_question_response_record(P.qr[0]); break;
     case 2: b.add_question_response_record(P.qr[0]); b.add_question_response_record(P.qr[3]); b.add_address_event_count(P.aec[0]); b.add_address_event_count(P.aec[1]); b.add_address_event_count(P.aec[0]); b.add_malformed_message(P.mm[0]); b.add_malformed_message(P.mm[3]); break;
+    case 4: // tables that contain the same value twice followed by further distinct values (legal in a file; the reader stores entries as they come)
+        b.add_question_response_record(P.qr[0]); b.add_question_response_record(P.qr[3]); b.add_malformed_message(P.mm[0]);
+        { StringItem d; d.data = b.get_ip_address(0); b.m_ip_address.add_value(d); b.add_ip_address("after-duplicate-1"); b.add_ip_address("after-duplicate-2");
+          StringItem n; n.data = b.get_name_rdata(0); b.m_name_rdata.add_value(n); b.add_name_rdata("name-after-duplicate");
+          ClassType c0 = b.get_classtype(0); b.m_classtype.add_value(c0); ClassType c9; c9.type = 999; c9.class_ = 9; b.add_classtype(c9);
+          RR r0 = b.get_rr(0); b.m_rr.add_value(r0); RR r9; r9.name_index = 0; r9.classtype_index = 0; r9.ttl = 99999; b.add_rr(r9);
+          QueryResponseSignature s0 = b.get_qr_signature(0); b.m_qr_sig.add_value(s0); QueryResponseSignature s9; s9.server_port = 9999; b.add_qr_signature(s9); }
+        break;
     case 3: for (int i = 0; i < 300; i++) { GenericQueryResponse q = P.qr[3]; q.client_ip = std::string("\x0a\x00", 2) + std::string(1, (char)(i >> 8)) + std::string(1, (char)i); q.query_name = std::string("\x04name", 5) + std::to_string(i); ClassType c; c.type = i; c.class_ = 1; q.query_classtype = c;
                 q.server_port = i; q.response_answers = std::vector<GenericResourceRecord>{rr(*q.query_name, i, 1, (uint32_t)i, std::string("rd") + std::to_string(i))}; q.query_questions = std::vector<GenericResourceRecord>{rr(*q.query_name, i, 1)};
                 b.add_question_response_record(q); GenericMalformedMessage m = P.mm[0]; m.server_port = i; b.add_malformed_message(m); } break;
@@ -206,8 +214,8 @@ static void refill_different(CdnsBlock& b) { for (int i = 0; i < 40; i++) { b.ad
     QueryResponseSignature s; s.server_port = 7000 + i; b.add_qr_signature(s); MalformedMessageData m; m.server_port = 7000 + i; b.add_malformed_message_data(m); b.add_question_list({(index_t)i}); b.add_rr_list({(index_t)i, 0}); } }
 
 // follow-up operations; each returns an observation string
-enum COp { C_ADD_EXIST_IP, C_ADD_EXIST_CT, C_ADD_EXIST_NAME, C_ADD_EXIST_SIG, C_ADD_EXIST_Q, C_ADD_EXIST_RR, C_ADD_EXIST_MMD, C_ADD_EXIST_QLIST, C_ADD_EXIST_RRLIST, C_ADD_NEW, C_GET0, C_GENERIC_SHARED, C_AEC_AGAIN, C_WRITE, C_READ_GENERIC, C_N };
-static const char* CN[] = {"add_existing_ip", "add_existing_classtype", "add_existing_name", "add_existing_sig", "add_existing_question", "add_existing_rr", "add_existing_mmd", "add_existing_qlist", "add_existing_rrlist", "add_new", "get0", "generic_sharing", "aec_again", "write", "read_generic"};
+enum COp { C_ADD_EXIST_IP, C_ADD_EXIST_CT, C_ADD_EXIST_NAME, C_ADD_EXIST_SIG, C_ADD_EXIST_Q, C_ADD_EXIST_RR, C_ADD_EXIST_MMD, C_ADD_EXIST_QLIST, C_ADD_EXIST_RRLIST, C_ADD_NEW, C_GET0, C_GENERIC_SHARED, C_AEC_AGAIN, C_WRITE, C_READ_GENERIC, C_ADD_EXIST_LAST, C_N };
+static const char* CN[] = {"add_existing_ip", "add_existing_classtype", "add_existing_name", "add_existing_sig", "add_existing_question", "add_existing_rr", "add_existing_mmd", "add_existing_qlist", "add_existing_rrlist", "add_new", "get0", "generic_sharing", "aec_again", "write", "read_generic", "add_existing_last_entries"};
 static std::string c_apply(int op, CdnsBlock& b, const Pools& P, CdnsBlockRead* rd) {
     std::ostringstream o;
     try {
@@ -221,6 +229,11 @@ static std::string c_apply(int op, CdnsBlock& b, const Pools& P, CdnsBlockRead* 
         case C_ADD_EXIST_MMD: if (b.m_malformed_message_data.size()) { auto v = b.get_malformed_message_data(0); o << b.add_malformed_message_data(v) << "/" << b.m_malformed_message_data.size(); } break;
         case C_ADD_EXIST_QLIST: if (b.m_qlist.size()) { auto v = b.get_question_list(0); o << b.add_question_list(v) << "/" << b.m_qlist.size(); } break;
         case C_ADD_EXIST_RRLIST: if (b.m_rrlist.size()) { auto v = b.get_rr_list(0); o << b.add_rr_list(v) << "/" << b.m_rrlist.size(); } break;
+        case C_ADD_EXIST_LAST: {
+            if (b.m_ip_address.size()) o << b.add_ip_address(b.get_ip_address(b.m_ip_address.size() - 1)) << ","; if (b.m_name_rdata.size()) o << b.add_name_rdata(b.get_name_rdata(b.m_name_rdata.size() - 1)) << ",";
+            if (b.m_classtype.size()) o << b.add_classtype(b.get_classtype(b.m_classtype.size() - 1)) << ","; if (b.m_rr.size()) o << b.add_rr(b.get_rr(b.m_rr.size() - 1)) << ","; if (b.m_qr_sig.size()) o << b.add_qr_signature(b.get_qr_signature(b.m_qr_sig.size() - 1)) << ",";
+            index_t idx = 0; for (size_t i = 0; i < b.m_ip_address.size(); i++) { StringItem k; k.data = b.get_ip_address(i); bool f = b.m_ip_address.find(k, idx); o << (f ? (long)idx : -1L) << "."; }
+            o << "/" << b.m_ip_address.size() << "/" << b.m_name_rdata.size(); break; }
         case C_ADD_NEW: { o << b.add_ip_address("brand-new") << "," << b.add_name_rdata("brand-new-name"); ClassType c; c.type = 4242; c.class_ = 42; o << "," << b.add_classtype(c); break; }
         case C_GET0: if (b.m_ip_address.size()) o << ref::hex(b.get_ip_address(0)); if (b.m_name_rdata.size()) o << "," << ref::hex(b.get_name_rdata(0)).substr(0, 40); break;
         case C_GENERIC_SHARED: o << b.add_question_response_record(P.qr[3]) << "/" << b.m_ip_address.size() << "/" << b.m_name_rdata.size() << "/" << b.m_qr_sig.size() << "/" << b.get_qr_count(); break;
@@ -408,7 +421,7 @@ int main(int argc, char** argv) {
                    [&](uint64_t, const std::string& d, Result& R) { auto k = crash_key(d); R.violation(std::string("copy|") + WN[atoi(kv["way"].c_str())] + "|" + FN[atoi(kv["fate"].c_str())] + "|" + k, d.substr(0, 2000), s); }, total); return done(total.viol.empty() ? 0 : 1); }
         struct Task { int content, way, fate, o1; };
         std::vector<Task> tasks;
-        for (int c = 0; c < 4; c++) for (int w = 0; w < W_N; w++) for (int f = 0; f < F_N; f++) { if (w == W_READER_ASSIGN && !(f == F_KEPT || f == F_DESTROYED)) continue; for (int o = -1; o < C_N; o++) tasks.push_back({c, w, f, o}); }
+        for (int c = 0; c < 5; c++) for (int w = 0; w < W_N; w++) for (int f = 0; f < F_N; f++) { if (w == W_READER_ASSIGN && !(f == F_KEPT || f == F_DESTROYED)) continue; for (int o = -1; o < C_N; o++) tasks.push_back({c, w, f, o}); }
         int D = T ? 3 : 2;
         Pool pool(a.jobs, 300);
         pool.run(tasks.size(), [&](uint64_t ti, Result& R) {
